@@ -92,7 +92,10 @@ def all_cmds():
     return cmds
 
 
-CRED = [{"op": "auth", "u": "admin", "tok": "wrong"},
+CRED = [{"op": "auth", "u": "admin", "tok": "adminpw"}, {"op": "auth", "u": "admin", "tok": "adminpwdx"},
+        {"op": "use-db", "d": "d", "tok": "to", "u": "-"}, {"op": "use-db", "d": "d", "tok": "tokx", "u": "-"},
+        {"op": "use-db", "d": "d", "tok": "u", "u": "u1"}, {"op": "use-db", "d": "d", "tok": "utx", "u": "u1"},
+        {"op": "auth", "u": "admin", "tok": "wrong"},
         {"op": "auth", "u": "nobody", "tok": "adminpwd"},
         {"op": "use-db", "d": "d", "tok": "tok", "u": "-"},
         {"op": "use-db", "d": "d", "tok": "bad", "u": "-"},
